@@ -17,7 +17,7 @@ RUNS = {'C05': 4000, 'C06': 4000, 'C08': 3000, 'C10': 400, 'C12': 120, 'C13': 24
 def one(prop, runs, jobs, hashseed, seed, tag):
     out = os.path.join(HERE, 'out', 'selftest', '%s-%s.json' % (prop, tag))
     os.makedirs(os.path.dirname(out), exist_ok=True)
-    env = dict(os.environ, PYTHONHASHSEED=str(hashseed), VERIF_SEED=str(seed))
+    env = dict(os.environ, PYTHONHASHSEED=str(hashseed), VERIF_SEED=str(seed), VERIF_EVIDENCE_DIR=os.path.join(HERE, 'out', 'selftest', 'evidence'))
     p = subprocess.run([os.path.join(HERE, 'check'), prop, '--runs', str(runs), '--jobs', str(jobs), '--budget', '1200', '--digest-out', out],
                        env=env, capture_output=True, text=True)
     if p.returncode not in (0, 1):
